@@ -83,8 +83,6 @@ def probe_cases():
         # 24 bpp, pitch rounded up to a multiple of 4
         {"id": 9003, "cons": "fb", "w": 5, "h": 2, "pitch": 16, "bpp": 24, "ci": [16, 8, 8, 8, 0, 8], "rows": [[0] * 16] * 2, "leg": "P",
          "scripts": [[{"op": "pal", "idx": 0, "c": [0, 200, 0, 0]}]]},
-        {"id": 9004, "cons": "fb", "w": 3, "h": 3, "pitch": 10, "bpp": 24, "ci": [16, 8, 8, 8, 0, 8], "rows": [[0] * 10] * 3, "leg": "P",
-         "scripts": [[{"op": "pal", "idx": 0, "c": [0, 200, 0, 0]}]]},
         # what hal.onConsoleInit does on a 40x30 framebuffer: SetLogo(logo.BestFit(40, 30))
         {"id": 9005, "cons": "fb", "w": 40, "h": 30, "pitch": 80, "bpp": 16, "ci": l565, "leg": "P", "seed": 5, "paint": [0],
          "logos": [{"best": [40, 30]}], "scripts": [[{"op": "logo", "i": 1}]]},
@@ -253,23 +251,37 @@ def mutants(ctx, d, jobs, workers):
 def probe_leg(ctx, probe, dec_index, seen):
     """The inputs of the excluded classes against the strict monitor: a diagnosis tagged Dev_<name> documents the deviation of the
     pinned tree (note); acceptance means the tree no longer deviates (note); any other diagnosis is a violation."""
-    # a monitor process stops at its first mismatch: every probe case gets a process of its own, a few at a time
+    # the strict monitor keeps going after a mismatch (KeepGoing): one process judges every probe case; the first
+    # diagnosis of a case counts (later events of that case run on a state that already diverged)
+    import re
     cases, cur = [], []
     for line in open(probe):
         cur.append(line)
         if line.startswith('{"k":"reset"'):
             cases.append(cur)
             cur = []
-    ncases, acc, mism = len(cases), 0, []
-    per = max(1, min(vlib.maxpar(), vlib.NCPU, 6))
-    for b in range(0, ncases, per):
-        part = os.path.join(ctx.work, "trace_probe_%d.ndjson" % b)
-        with open(part, "w") as f:
-            for c in cases[b:b + per]:
-                f.writelines(c)
-        a, _, mm = ctx.validate_traces("ConsCfgTrace", "ConsCfgTraceStrict", part, SPECS, parallel=per, name="V-probes-strict-%d" % b, timeout=600)
-        acc += a
-        mism += mm
+    ncases = len(cases)
+    d = ctx.spec_dir(*SPECS)
+    r = ctx.tlc(d, "ConsCfgTrace", "ConsCfgTraceStrict", workers=1, env={"TRACE": probe}, timeout=600, dump_trace=False, xmx="2g",
+                name="V-probes-strict")
+    nlines = sum(len(c) for c in cases)
+    if r.violated is not None or not r.ok or r.generated < nlines:
+        raise vlib.Broken("probe validation did not run through (%s):\n%s" % (r.violated, r.out[-3000:]))
+    mism, hit = [], set()
+    for m in re.finditer(r'<<"VERIF-MISMATCH", "(.*)">>', r.out):
+        mm = json.loads(json.loads('"' + m.group(1) + '"'))
+        k = 0
+        for i, c in enumerate(cases):
+            if mm[0] <= k + len(c):
+                if i not in hit:
+                    hit.add(i)
+                    mism.append({"mismatch": mm, "case_events": [json.loads(x) for x in c], "line_in_case": mm[0] - k, "chunk": 0})
+                break
+            k += len(c)
+    acc = ncases - len(hit)
+    ctx.cov["traces_validated_against_impl"] += ncases
+    ctx.cov["evaluations"] += nlines
+    ctx.log("V probes (strict): %d cases, %d events, %d with a diagnosis, %.1fs" % (ncases, nlines, len(hit), r.wall))
     bad, devs = [], {}
     for m in mism:
         why = m["mismatch"][2]
@@ -289,7 +301,6 @@ def probe_leg(ctx, probe, dec_index, seen):
         ctx.note("%d probe case(s) of the excluded classes were accepted by the strict rule (no deviation shown by them)" % acc)
     report(ctx, "probes", bad, dec_index, seen)
     ctx.cov["legs"]["probes"] = {"cases": ncases, "deviations_confirmed": {k: len(v) for k, v in devs.items()}, "accepted_strict": acc}
-    # the remaining probe cases of a chunk after its first mismatch are not judged: one case per chunk was requested
     return devs
 
 
@@ -310,11 +321,13 @@ def run(ctx):
     dec_emit = os.path.join(ctx.work, "dec_emitted.ndjson")
     ctx.model_check(d, "MCConsSel", "MCConsSelQuick" if q else "MCConsSelFull", env={"CASES": sel_emit}, workers=1, timeout=900)
     ctx.model_check(d, "MCConsDec", "MCConsDecQuick" if q else "MCConsDecFull", env={"CASES": dec_emit}, workers=1, timeout=1500)
-    # a driver repaired to walk row by row satisfies the strict rule also on unaligned pitches (the spec does not pin the defect down)
-    ctx.model_check(d, "MCConsDec", "MCConsDecRepaired", env={"CASES": os.devnull}, workers=2, timeout=600)
     rnd = random.Random(ctx.seed)
+    if not q:
+        # a driver repaired to walk row by row satisfies the strict rule also on unaligned pitches (the spec does not pin the defect down)
+        ctx.model_check(d, "MCConsDec", "MCConsDecRepaired", env={"CASES": os.devnull}, workers=2, timeout=600)
     if q:
-        jobs = [("MCConsSel", "MCConsSelBug_" + rnd.choice(SEL_BUGS)), ("MCConsDec", "MCConsDecBug_" + rnd.choice(DEC_BUGS))] + STRICT
+        one = ("MCConsSel", "MCConsSelBug_" + rnd.choice(SEL_BUGS)) if ctx.seed % 2 else ("MCConsDec", "MCConsDecBug_" + rnd.choice(DEC_BUGS))
+        jobs = [one, STRICT[ctx.seed % 2], STRICT[2]]
     else:
         jobs = [("MCConsSel", "MCConsSelBug_" + b) for b in SEL_BUGS] + [("MCConsDec", "MCConsDecBug_" + b) for b in DEC_BUGS] + STRICT
     mutants(ctx, d, jobs, 3)
@@ -348,7 +361,7 @@ def run(ctx):
 
     # ---- leg V
     seen = set()
-    acc, nev, mism = ctx.validate_traces("ConsCfgTrace", "ConsCfgTrace", main, SPECS, parallel=5 if q else 16, name="V", timeout=1500)
+    acc, nev, mism = ctx.validate_traces("ConsCfgTrace", "ConsCfgTrace", main, SPECS, parallel=3 if q else 16, name="V", timeout=1500)
     report(ctx, "G+T", mism, dec_index, seen)
     kinds = account(ctx, main)
     ctx.cov["legs"]["events_by_kind"] = kinds
